@@ -119,11 +119,33 @@ class Origins:
             return self.of_place(op["p"], block, idx, depth, stack)
         return ("unknown", op.get("dbg", "?"))
 
+    def _named_literal(self, path):
+        """a named constant whose body is one integer literal stands for that literal (`const LIMB_BITS: u32 = 32`)"""
+        fb = self.fb
+        cb = getattr(fb, "by_path", {}).get(path) if fb is not None else None
+        if cb is None or cb.kind != "const" or path.startswith("hvwitness::"):
+            return None  # (the witness crate's constants are placeholders: they stand for a role, not for a number)
+        vals = []
+        for blk in cb.blocks:
+            for st in blk["stmts"]:
+                if st["k"] == "assign" and st["p"]["l"] == 0 and not st["p"]["proj"]:
+                    r = st["r"]
+                    if r["k"] == "use" and r["x"]["k"] == "const" and "int" in r["x"] and "uneval" not in r["x"]:
+                        vals.append(("const", r["x"]["ty"], int(r["x"]["int"])))
+                    else:
+                        return None
+                elif st["k"] == "assign":
+                    return None
+            if blk["term"]["k"] not in ("return", "goto", "unreachable"):
+                return None
+        return vals[0] if len(vals) == 1 else None
+
     def _const(self, op):
         if "fn" in op:
             return ("fnitem", callee_name(op["fn"], self.fb))
         if "uneval" in op and "promoted" not in op:
-            return ("named", op["uneval"])
+            lit = self._named_literal(op["uneval"])
+            return lit if lit is not None else ("named", op["uneval"])
         if "uneval" in op and "promoted" in op:
             return ("promoted", op["uneval"], op["promoted"])
         if "int" in op:
